@@ -1,6 +1,6 @@
 (* C09: case vocabulary, executable model runner and property predicate.
    The model follows the code WITH the repairs F01, F02, F03, F06, F12, F17. *)
-From OIDC Require Export Lib C09_Json C09_Codec C09_Verifier C09_Handler C09_Client C09_Crypto C09_Header C09_Auth C09_ReqObj C09_Redirect.
+From OIDC Require Export Lib C09_Json C09_Codec C09_Verifier C09_Handler C09_Client C09_Crypto C09_Header C09_Auth C09_ReqObj C09_Redirect C09_Cred.
 
 (* per-case oracle tables, filled by the harness with the real functions' answers
    for every string of the document *)
@@ -71,7 +71,8 @@ Inductive input :=
 | IClient (h : helper) (a : answer) (expect : string) (t : tables)
 | IDevice (dev tok : answer) (t : tables)             (* device authorization answer, then polling the token endpoint with its interval *)
 | IOpaque (o : otoken)                               (* crypto.DecryptAES of a string of that make-up *)
-| IUserCode (charset_len amount dash : Z).           (* op.NewUserCode *)
+| IUserCode (charset_len amount dash : Z)            (* op.NewUserCode *)
+| ICred (k : kshape).                                (* otherwise valid request of a client registered per case: the BYTES of its id / secret x how they are sent *)
 
 Inductive observed :=
 | ODecode (c : cls)
@@ -100,6 +101,7 @@ Definition model (i : input) : observed :=
   | IOpaque o => ODecode (cls_of (decrypt_aes true o))
   | IUserCode n amount dash =>
       OUserCode (if (n <=? 0)%Z || (amount <=? 0)%Z then KErr else KOk)
+  | ICred k => OHint (cred_handler true true k)
   end.
 
 (* The property, on what the implementation answered: never a panic, never two
@@ -127,6 +129,9 @@ Definition spec (i : input) (o : observed) : bool :=
   | IDevice _ _ _, OClient c => match c with CPanic | CHang => false | _ => true end
   | IOpaque _, ODecode c => match c with KPanic => false | _ => true end
   | IUserCode _ _ _, OUserCode c => match c with KPanic => false | _ => true end
+  | ICred _, OHint r => match r with HRefused | HAccepted => true | _ => false end
+      (* the text asks for a well-formed answer, not for acceptance: whether the RIGHT credentials are accepted is the
+         model's (and C05's) business - a deviation there shows as a model / implementation mismatch *)
   | _, _ => false
   end.
 
@@ -134,6 +139,7 @@ Definition wf (i : input) : bool :=
   match i with
   | IHandler s => shape_wf s
   | IAuth a => ashape_wf a
+  | ICred k => kshape_wf k
   | _ => true
   end.
 
@@ -211,6 +217,14 @@ Definition path (i : input) (o : observed) : nat :=
   | IUserCode _ _ _, _ => 15
   | IDevice _ _ _, OClient c => match c with CRetOk => 43 | CRetErr => 44 | _ => 45 end
   | IOpaque o, ODecode c => match c with KOk => 46 | KErr => if ot_other o then 47 else 48 | KPanic => 49 end
+  | ICred k, OHint o =>
+      match k_sent k, o with
+      | SBasic _, HAccepted => 80
+      | SPost _ _, HAccepted => 81
+      | SBasic p, HRefused => match basic_decode true true p with Some _ => 82 | None => 83 end
+      | SPost _ _, HRefused => 84
+      | _, _ => 85
+      end
   | _, _ => 0
   end.
 
